@@ -17,7 +17,7 @@ PROPERTY = "C01"
 LEVEL = "exploration"
 NEED_EXT = True
 REQUIRED = ["get_params", "set_params.key", "set_params.returns_self", "clone", "roundtrip.params",
-            "roundtrip.behaviour", "history.steps", "rebuild.behaviour", "witness", "history.refused_call", "set_params.two_steps"]
+            "roundtrip.behaviour", "history.steps", "rebuild.behaviour", "witness", "history.refused_call", "set_params.two_steps", "history.untouched_values_identical"]
 RULE = ("every registered class (32) x its configurations (2-4 each: nested estimators, stacking lists of 1, 2 and 12 "
         "members, string/callable options, SkBase kwargs) x every key advertised by get_params(deep=True) set once "
         "(enumerated) x random histories of 4-12 get/set/clone operations; non-trivial = configuration with nested "
@@ -121,10 +121,22 @@ def alt_value(spec, key, cur, rng, est=None):
 PREFIX = {"ClassifierAfterKMeans": {"clus": "c_", "estimator": "e_"}}   # advertised naming of nested keys
 
 
-def expected_after(before, update, cls=None):
-    """The contract: exactly the given keys change (plus the nested keys of a replaced sub-estimator)."""
+def opaque_keys(est):
+    """Free-form keywords kept in the SkBase parameter store: their values are reported as they are, the class does not
+    advertise nested keys for them (an estimator kept there is a value like any other)."""
+    P = getattr(est, "P", None)
+    try:
+        return set(P.to_dict()) if P is not None else set()
+    except Exception:
+        return set()
+
+
+def expected_after(before, update, cls=None, est=None):
+    """The contract: exactly the given keys change (plus the nested keys of a replaced sub-estimator, where the class
+    advertises nested keys for that parameter)."""
     import re
     exp = dict(before)
+    opaque = opaque_keys(est) if est is not None else set()
     pmap = PREFIX.get(cls, {})
     for k in [k for k in update if k in pmap]:
         v = update[k]
@@ -143,6 +155,8 @@ def expected_after(before, update, cls=None):
         pat = re.compile("^%s_\\d+__" % re.escape(k))
         for kk in [x for x in exp if x.startswith(k + "__") or pat.match(x)]:
             del exp[kk]
+        if k in opaque:
+            continue
         if is_est(v):
             for kk, vv in v.get_params(deep=True).items():
                 exp[k + "__" + kk] = vv
@@ -330,7 +344,7 @@ def run_keys(case, ctx):
             if after is None:
                 continue
             ctx.hit("set_params.key")
-            exp = expected_after(before, {key: val}, spec.name)
+            exp = expected_after(before, {key: val}, spec.name, e2)
             d = diff_params(after, exp)
             if d:
                 own = [x for x in d if x.startswith(key + "=") or x.startswith(key + " ")]
@@ -413,7 +427,7 @@ def run_keys(case, ctx):
                         continue
                     a5 = safe_get(e5, ctx, K, cfg)
                     ctx.hit("set_params.both_prefixes")
-                    d5 = diff_params(a5, expected_after(b5, upd5, spec.name)) if a5 is not None else []
+                    d5 = diff_params(a5, expected_after(b5, upd5, spec.name, e5)) if a5 is not None else []
                     if d5:
                         ctx.violation(K + "set_params/key-not-set/prefixed", "set_params(%s) with both prefixed versions "
                                       "of %r: %s" % (", ".join(order), nm_, "; ".join(d5[:3])), cfg=dict(cfg, keys=order))
@@ -473,7 +487,7 @@ def run_keys(case, ctx):
             if a2 is None:
                 continue
             ctx.hit("set_params.two_steps")
-            d2 = diff_params(a2, expected_after(b1, {k2: v2}, spec.name))
+            d2 = diff_params(a2, expected_after(b1, {k2: v2}, spec.name, e3))
             if d2:
                 ctx.violation(K + "set_params/second-call-differs/%s" % key_kind(k2), "after set_params(%s=...) then "
                               "set_params(%s=%s): %s" % (k1, k2, _short(v2), "; ".join(d2[:3])), cfg=c3)
@@ -704,13 +718,32 @@ def run_history(case, ctx):
         got = safe_get(est, ctx, K, cfg)
         if got is None:
             return
-        exp = expected_after(shadow, upd, spec.name)
+        exp = expected_after(shadow, upd, spec.name, est)
         d = diff_params(got, exp)
         if d:
             kinds = sorted({key_kind(k) for k in upd})
             ctx.violation(K + "history/shadow-store-differs/%s" % kinds[-1],
                           "after %r the reported parameters differ from the contract: %s" % (
                               cfg["history"][-3:], "; ".join(d[:3])), cfg=cfg)
+        # ... and the values of the keys that were NOT given are the very objects they were: the caller's estimator, list
+        # or array is still the one the object holds (a later change through the caller's reference is seen).  Judged
+        # for keys whose value get_params hands out by identity (two calls in a row give the same object)
+        if op != "setfrom":
+            again = safe_get(est, ctx, K, cfg, deep=False) or {}
+            for k, v0 in shadow.items():
+                if "__" in k or k in upd or k not in got or k not in again or got[k] is not again[k]:
+                    continue
+                if any(_owner(k) == g or _owner(g) == k for g in upd):
+                    continue
+                if not (is_est(v0) or isinstance(v0, (list, dict, numpy.ndarray))):
+                    continue
+                ctx.hit("history.untouched_values_identical")
+                if got[k] is not v0:
+                    ctx.violation(K + "history/untouched-value-replaced",
+                                  "after %r the value of %r, a key that was not given, is another object (%s) than before "
+                                  "the call" % (cfg["history"][-1], k, "an equal copy" if eq(got[k], v0) else "different"),
+                                  cfg=cfg)
+                    break
         shadow = got
     if wit is not None:
         check_witness(wit, w0, ctx, K, cfg)
